@@ -28,8 +28,8 @@ mcPrefixPairs == {<<"x", "">>, <<"x", "x">>}
 mcTickDs == {1, 2, 3, 5, 13}
 mcProjOfName == <<>>
 mcOps == {"Publish", "Pull", "Ack", "ModAck", "Nack", "DLSweep", "Tick", "DeleteTopic", "CreateSub",
-          "DeleteSub", "CreateTopic", "SeekTime"}
+          "DeleteSub", "CreateTopic", "SeekTime", "StreamAN"}
 W0 == [op \in mcOps |-> 1]
-mcWeights == [W0 EXCEPT !["Publish"] = 5, !["Pull"] = 14, !["Ack"] = 2, !["ModAck"] = 3, !["Nack"] = 6,
+mcWeights == [W0 EXCEPT !["Publish"] = 5, !["Pull"] = 14, !["Ack"] = 2, !["ModAck"] = 3, !["Nack"] = 6, !["StreamAN"] = 4,
                         !["Tick"] = 8, !["DLSweep"] = 5, !["CreateSub"] = 2]
 =============================================================================
